@@ -147,6 +147,23 @@ Fixpoint no_diag (e : op T) : Prop :=
   | ODiag _ _ _ => False
   end.
 
+(* each component of a DiagonalOperator maps its space to itself: the out-of-place body
+   `out = range.zero(); out[i] += op(x[j])` adds the component result to zeros of the SPACE's shape *)
+Definition shape (v : val) : list nat := map (@length T) v.
+Fixpoint diag_ok (e : op T) (v : val) : Prop :=
+  match e with
+  | OLeaf _ => True
+  | OSum a b | OPw a b => diag_ok a v /\ diag_ok b v
+  | OVecSum a _ | OLScal a _ | OLVec a _ => diag_ok a v
+  | OComp a b => diag_ok b v /\ diag_ok a (pure b v)
+  | ORScal a s => diag_ok a (scal s v)
+  | ORVec a w => diag_ok a (e2 nmul v w)
+  | ODiag k a b => shape (pure a (firstn k v)) = shape (firstn k v) /\ shape (pure b (skipn k v)) = shape (skipn k v)
+                   /\ diag_ok a (firstn k v) /\ diag_ok b (skipn k v)
+  end.
+Lemma no_diag_ok (e : op T) : no_diag e -> forall v, diag_ok e v.
+Proof. induction e; cbn; intros Hn w; try tauto; try (destruct Hn; split; auto); auto. Qed.
+
 (* P(x): the result is a NEW element r holding the value; nothing that existed before is modified *)
 Definition post_oop (h : heap) (x : ref) (res : ref * heap) (v : val) : Prop :=
   get (snd res) (fst res) = v /\ NoDup (fst res) /\ length (fst res) = length x
@@ -186,21 +203,6 @@ Lemma kept_get hv hn r : kept hv hn -> below (next hv) r -> get hn r = get hv r.
 Proof. intros K Hb; apply get_ext; intros i Hi; apply K; eapply below_in; eauto. Qed.
 End Oop.
 
-Ltac absorb_oop IH :=
-  match goal with
-  | |- context [run_oop ?a ?x ?hv] => is_var hv;
-      let hn := fresh "h" in let r := fresh "r" in let Q := fresh "Q" in let Hb := fresh "Hb" in
-      let Wf := fresh "Wf" in let G := fresh "G" in let K := fresh "K" in let N := fresh "N" in
-      assert (Hb : below (next hv) x) by below_tac;
-      assert (Wf : wfop (length x) a) by (autorewrite with len; first [assumption | congruence]);
-      pose proof (IH hv x Wf Hb) as Q; clear Wf Hb;
-      destruct (run_oop a x hv) as [r hn]; unfold post_oop in Q; cbn [fst snd] in Q;
-      let Qnd := fresh "Qnd" in let Ql := fresh "Ql" in let Qb := fresh "Qb" in let Qa := fresh "Qa" in
-      destruct Q as (G & Qnd & Ql & Qb & Qa & K & N); autorewrite with len in Ql;
-      change (kept hv hn) in K;
-      assert (next hn = next hv + (next hn - next hv)) as N' by lia; clear N;
-      generalize dependent (next hn - next hv); intros ? N; nxt; exec
-  end.
 Ltac rd2 :=
   first [ rd1
         | match goal with
@@ -212,6 +214,23 @@ Ltac fr2 i :=
   first [ fr1 i
         | match goal with K : kept ?hv ?hn |- context [mem ?hn i] => rewrite (K i) by (nxg; lia) end ].
 Ltac frv2 i := repeat fr2 i.
+Ltac absorb_oop IH :=
+  match goal with
+  | |- context [run_oop ?a ?x ?hv] => is_var hv;
+      let hn := fresh "h" in let r := fresh "r" in let Q := fresh "Q" in let Hb := fresh "Hb" in
+      let Wf := fresh "Wf" in let G := fresh "G" in let K := fresh "K" in let N := fresh "N" in
+      assert (Hb : below (next hv) x) by below_tac;
+      assert (Wf : wfop (length x) a) by (autorewrite with len; first [assumption | congruence]);
+      let Dg := fresh "Dg" in
+      assert (Dg : diag_ok a (get hv x)) by (rdv2; assumption);
+      pose proof (IH hv x Dg Wf Hb) as Q; clear Wf Hb Dg;
+      destruct (run_oop a x hv) as [r hn]; unfold post_oop in Q; cbn [fst snd] in Q;
+      let Qnd := fresh "Qnd" in let Ql := fresh "Ql" in let Qb := fresh "Qb" in let Qa := fresh "Qa" in
+      destruct Q as (G & Qnd & Ql & Qb & Qa & K & N); autorewrite with len in Ql;
+      change (kept hv hn) in K;
+      assert (next hn = next hv + (next hn - next hv)) as N' by lia; clear N;
+      generalize dependent (next hn - next hv); intros ? N; nxt; exec
+  end.
 Ltac finish_oop :=
   unfold post_oop; cbn [fst snd];
   refine (conj _ (conj _ (conj _ (conj _ (conj _ (conj _ _))))));
@@ -245,35 +264,131 @@ Proof. intros Hl; apply pzip_comm; [|exact Hl]. intros a b; apply vmap2_comm; in
 Lemma emul_comm (u v : val) : length u = length v -> e2 nmul u v = e2 nmul v u.
 Proof. intros Hl; apply pzip_comm; [|exact Hl]. intros a b; apply vmap2_comm; intros; apply mul_comm. Qed.
 
-Theorem run_oop_ok (e : op T) : no_diag e -> forall (h : heap) x, wfop (length x) e -> below (next h) x ->
+Hypothesis add_zero : forall v : T, nadd (nmul one nzero) (nmul one v) = v.
+
+Lemma vmap2_zeros (a p : list T) : length a = length p ->
+  vmap2 (fun u v => nadd (nmul one u) (nmul one v)) (map (fun _ => nzero) a) p = p.
+Proof.
+  revert p; induction a as [|u a IH]; intros [|v p] Hl; cbn in *; try discriminate; auto.
+  rewrite add_zero, IH by congruence; reflexivity.
+Qed.
+Lemma lin_zeros (z p : val) : shape p = shape z -> lin one one (zeros_like z) p = p.
+Proof.
+  unfold shape; revert p; induction z as [|a z IH]; intros [|b p] Hs; cbn in *; try discriminate; auto.
+  injection Hs as Hl Hs. unfold lin, e2, zeros_like, e1 in *. cbn [map pzip hd tl]. rewrite IH by exact Hs.
+  rewrite vmap2_zeros by congruence. reflexivity.
+Qed.
+Lemma get_eq_in (h1 h2 : heap) (r : ref) : get h1 r = get h2 r -> forall i, In i r -> mem h1 i = mem h2 i.
+Proof.
+  induction r as [|u r IH]; intros Hm i Hi; [destruct Hi|]. cbn in Hm. injection Hm as Hu Hm.
+  destruct Hi as [->|Hi]; [exact Hu | exact (IH Hm i Hi)].
+Qed.
+Lemma above_sub N (r r' : ref) : above N r -> (forall i, In i r' -> In i r) -> above N r'.
+Proof. intros Ha Hs i Hi; apply Ha, Hs, Hi. Qed.
+
+Theorem run_oop_ok (e : op T) : forall (h : heap) x, diag_ok e (get h x) -> wfop (length x) e -> below (next h) x ->
   post_oop h x (run_oop e x h) (pure e (get h x)).
 Proof.
   induction e as [l | a IHa b IHb | a IHa v | a IHa b IHb | a IHa b IHb | a IHa s | a IHa s | a IHa v | a IHa v
-                 | k a IHa b IHb]; intros Hnd h x Hwf Hbx; cbn [run_oop pure wfop no_diag] in *.
+                 | k a IHa b IHb]; intros h x Hdg Hwf Hbx; cbn [run_oop pure wfop diag_ok] in *.
   - apply leaf_oop_ok; assumption.
-  - destruct Hwf as [Hwa Hwb], Hnd as [Hna Hnb]. specialize (IHa Hna). specialize (IHb Hnb).
+  - destruct Hwf as [Hwa Hwb], Hdg as [Hda Hdb].
     absorb_oop IHa. absorb_oop IHb. absorb. finish_oop.
     apply lin11_comm. rewrite !(pure_length _ (length x)); autorewrite with len; auto.
-  - specialize (IHa Hnd). absorb_oop IHa. absorb. finish_oop.
-  - destruct Hwf as [Hwa Hwb], Hnd as [Hna Hnb]. specialize (IHa Hna). specialize (IHb Hnb).
-    absorb_oop IHb. absorb_oop IHa. unfold post_oop; cbn [fst snd].
-    refine (conj _ (conj _ (conj _ (conj _ (conj _ (conj _ _)))))).
-    + rdv2; try reflexivity.
-    + first [assumption | apply seq_NoDup].
-    + len_tac.
-    + below_tac.
-    + first [ apply above_seq; nxg; lia | eapply above_mono; [eassumption | nxg; lia] ].
-    + intros i Hi; frv2 i; try reflexivity.
-    + nxg; lia.
-  - destruct Hwf as [Hwa Hwb], Hnd as [Hna Hnb]. specialize (IHa Hna). specialize (IHb Hnb).
+  - absorb_oop IHa. absorb. finish_oop.
+  - destruct Hwf as [Hwa Hwb], Hdg as [Hdb Hda].
+    absorb_oop IHb. absorb_oop IHa. finish_oop.
+  - destruct Hwf as [Hwa Hwb], Hdg as [Hda Hdb].
     absorb_oop IHa. absorb_oop IHb. absorb. finish_oop.
     apply emul_comm. rewrite !(pure_length _ (length x)); autorewrite with len; auto.
-  - specialize (IHa Hnd). absorb_oop IHa. absorb. finish_oop.
-  - specialize (IHa Hnd). exec. absorb. absorb_oop IHa. finish_oop.
-  - specialize (IHa Hnd). absorb_oop IHa. absorb. finish_oop.
-  - specialize (IHa Hnd). exec. absorb. absorb_oop IHa. finish_oop.
-  - destruct Hnd.
-
+  - absorb_oop IHa. absorb. finish_oop.
+  - exec. absorb. absorb_oop IHa. finish_oop.
+  - absorb_oop IHa. absorb. finish_oop.
+  - exec. absorb. absorb_oop IHa. finish_oop.
+  - destruct Hwf as (Hk & Hwa & Hwb). destruct Hdg as (Hsa & Hsb & Hda & Hdb).
+    exec. absorb.
+    (* names for the halves *)
+    set (z := seq (next h) (length x)) in *.
+    assert (Hzb : below (next h + length x) z) by (apply below_seq; lia).
+    assert (Hza : above (next h) z) by (apply above_seq; lia).
+    assert (Hzn : NoDup z) by apply seq_NoDup.
+    destruct (NoDup_firstn_skipn k z Hzn) as (Hzfn & Hzsn & Hzd).
+    assert (Hxz : dis x z) by (intros i Hi Hj; pose proof (below_in _ _ _ Hbx Hi); pose proof (Hza i Hj); lia).
+    assert (Hg1 : get h1 x = get h x) by (rdv; reflexivity).
+    assert (Hz1 : get h1 z = zeros_like (get h x)) by (rdv; reflexivity).
+    (* first component *)
+    assert (Hlf : length (firstn k x) = k) by (rewrite firstn_length; lia).
+    assert (Hb1 : below (next h1) (firstn k x)) by (rewrite N0; eapply below_mono; [apply below_firstn; exact Hbx | lia]).
+    assert (Hd1 : diag_ok a (get h1 (firstn k x))) by (rewrite get_firstn, Hg1; exact Hda).
+    assert (Hw1 : wfop (length (firstn k x)) a) by (rewrite Hlf; exact Hwa).
+    pose proof (IHa h1 (firstn k x) Hd1 Hw1 Hb1) as Q1.
+    destruct (run_oop a (firstn k x) h1) as [r1 h2]; unfold post_oop in Q1; cbn [fst snd] in Q1.
+    destruct Q1 as (G1 & Qnd1 & Ql1 & Qb1 & Qa1 & K1 & N1). rewrite get_firstn, Hg1 in G1. rewrite N0 in *.
+    exec.
+    set (h3 := st2 (lin one one) (firstn k z) r1 (firstn k z) h2) in *.
+    assert (Hn3 : next h3 = next h2) by apply st2_next.
+    assert (Hzf2 : get h2 (firstn k z) = zeros_like (firstn k (get h x))).
+    { transitivity (get h1 (firstn k z)).
+      - apply get_ext; intros i Hi; apply K1. pose proof (below_in _ _ _ Hzb (In_firstn _ _ _ Hi)); lia.
+      - rewrite get_firstn, Hz1. unfold zeros_like, e1. apply firstn_map. }
+    assert (W3 : wrote h2 h3 (firstn k z) (pure a (firstn k (get h x)))).
+    { assert (W3' := st2_wrote (lin one one) (firstn k z) r1 (firstn k z) h2 Hzfn).
+      rewrite Hzf2, G1 in W3'. rewrite lin_zeros in W3' by exact Hsa.
+      apply W3'. rewrite (pure_length a k); auto; rewrite !firstn_length, ?get_length; unfold z; rewrite ?seq_length; lia. }
+    (* second component *)
+    assert (Hls : length (skipn k x) = length x - k) by apply skipn_length.
+    assert (Hb3 : below (next h3) (skipn k x)) by (rewrite Hn3; eapply below_mono; [apply below_skipn; exact Hbx | lia]).
+    assert (Hg3 : get h3 (skipn k x) = skipn k (get h x)).
+    { rewrite <- get_skipn. transitivity (get h2 (skipn k x)).
+      - apply (wrote_frame _ _ _ _ _ W3).
+        + eapply below_mono; [apply below_skipn; exact Hbx | lia].
+        + intros i Hi Hj; exact (Hxz i (In_skipn _ _ _ Hi) (In_firstn _ _ _ Hj)).
+      - transitivity (get h1 (skipn k x)).
+        + apply get_ext; intros i Hi; apply K1. pose proof (below_in _ _ _ Hbx (In_skipn _ _ _ Hi)); lia.
+        + apply get_ext; intros i Hi. apply (get_eq_in _ _ _ Hg1). eapply In_skipn; exact Hi. }
+    assert (Hd3 : diag_ok b (get h3 (skipn k x))) by (rewrite Hg3; exact Hdb).
+    assert (Hw3 : wfop (length (skipn k x)) b) by (rewrite Hls; exact Hwb).
+    pose proof (IHb h3 (skipn k x) Hd3 Hw3 Hb3) as Q2.
+    destruct (run_oop b (skipn k x) h3) as [r2 h4]; unfold post_oop in Q2; cbn [fst snd] in Q2.
+    destruct Q2 as (G2 & Qnd2 & Ql2 & Qb2 & Qa2 & K2 & N2). rewrite Hg3 in G2. rewrite Hn3 in *.
+    exec.
+    set (h5 := st2 (lin one one) (skipn k z) r2 (skipn k z) h4) in *.
+    assert (Hn5 : next h5 = next h4) by apply st2_next.
+    assert (Hzs4 : get h4 (skipn k z) = zeros_like (skipn k (get h x))).
+    { transitivity (get h3 (skipn k z)).
+      { apply get_ext; intros i Hi; apply K2. pose proof (below_in _ _ _ Hzb (In_skipn _ _ _ Hi)); lia. }
+      transitivity (get h2 (skipn k z)).
+      { apply (wrote_frame _ _ _ _ _ W3).
+        - eapply below_mono; [apply below_skipn; exact Hzb | lia].
+        - intros i Hi Hj; exact (Hzd i Hj Hi). }
+      transitivity (get h1 (skipn k z)).
+      { apply get_ext; intros i Hi; apply K1. pose proof (below_in _ _ _ Hzb (In_skipn _ _ _ Hi)); lia. }
+      rewrite get_skipn, Hz1. unfold zeros_like, e1. apply skipn_map. }
+    assert (W5 : wrote h4 h5 (skipn k z) (pure b (skipn k (get h x)))).
+    { assert (W5' := st2_wrote (lin one one) (skipn k z) r2 (skipn k z) h4 Hzsn).
+      rewrite Hzs4, G2 in W5'. rewrite lin_zeros in W5' by exact Hsb.
+      apply W5'. rewrite (pure_length b (length x - k)); auto; rewrite !skipn_length, ?get_length; unfold z; rewrite ?seq_length; lia. }
+    (* assemble *)
+    unfold post_oop; cbn [fst snd].
+    refine (conj _ (conj Hzn (conj _ (conj _ (conj Hza (conj _ _)))))).
+    + rewrite <- (firstn_skipn k z) at 1. rewrite get_app. f_equal.
+      * transitivity (get h4 (firstn k z)).
+        { apply (wrote_frame _ _ _ _ _ W5).
+          - eapply below_mono; [apply below_firstn; exact Hzb | lia].
+          - exact Hzd. }
+        transitivity (get h3 (firstn k z)).
+        { apply get_ext; intros i Hi; apply K2. pose proof (below_in _ _ _ Hzb (In_firstn _ _ _ Hi)); lia. }
+        apply (wrote_get _ _ _ _ W3).
+      * apply (wrote_get _ _ _ _ W5).
+    + unfold z; apply seq_length.
+    + rewrite Hn5. eapply below_mono; [exact Hzb | lia].
+    + intros i Hi.
+      rewrite (wrote_mem _ _ _ _ i W5) by (try lia; intros Hj; pose proof (Hza i (In_skipn _ _ _ Hj)); lia).
+      rewrite K2 by lia.
+      rewrite (wrote_mem _ _ _ _ i W3) by (try lia; intros Hj; pose proof (Hza i (In_firstn _ _ _ Hj)); lia).
+      rewrite K1 by lia.
+      frv i; reflexivity.
+    + lia.
 Qed.
 End Oop2.
 
@@ -307,22 +422,51 @@ Qed.
 
 Hypothesis add_comm : forall a b : T, nadd a b = nadd b a.
 Hypothesis mul_comm : forall a b : T, nmul a b = nmul b a.
+Hypothesis add_zero : forall v : T, nadd (nmul one nzero) (nmul one v) = v.
 
 Lemma oop_gen (e : op T) (h : heap) (x : ref) :
-  no_diag e -> wfop (length x) e -> below (next h) x ->
+  diag_ok e (get h x) -> wfop (length x) e -> below (next h) x ->
   get (snd (run_oop e x h)) (fst (run_oop e x h)) = pure e (get h x)
   /\ above (next h) (fst (run_oop e x h))
   /\ (forall i, i < next h -> mem (snd (run_oop e x h)) i = mem h i).
 Proof.
-  intros Hnd Hwf Hb. destruct (run_oop_ok add_comm mul_comm e Hnd h x Hwf Hb) as (A & _ & _ & _ & B & C & _).
+  intros Hnd Hwf Hb. destruct (run_oop_ok add_comm mul_comm add_zero e h x Hnd Hwf Hb) as (A & _ & _ & _ & B & C & _).
   auto.
 Qed.
 
 Lemma aliased_eq_oop_gen (e : op T) (h : heap) (x : ref) :
-  no_diag e -> wfop (length x) e -> NoDup x -> below (next h) x ->
+  diag_ok e (get h x) -> wfop (length x) e -> NoDup x -> below (next h) x ->
   get (run_ip e x x h) x = get (snd (run_oop e x h)) (fst (run_oop e x h)).
 Proof.
   intros Hnd Hwf Hn Hb. destruct (aliased_gen e h x Hwf Hn Hb) as [A _].
   destruct (oop_gen e h x Hnd Hwf Hb) as [B _]. congruence.
 Qed.
 End Final.
+
+(* ------------------------------------------------------------- instances at R *)
+Lemma R_add_zero : forall v : R, (1 * 0 + 1 * v = v)%R.
+Proof. intros; ring. Qed.
+Lemma l1_alias_R (lam : R) (sigma : sval R) (g : option (list (list R))) (h : heap R) (x : ref) :
+  NoDup x -> below (next h) x -> get (call_l1 lam sigma g x x h) x = pure_l1 lam sigma g (get h x).
+Proof. intros Hn Hb; exact (proj1 (aliased_gen (OLeaf (LL1 lam sigma g)) h x I Hn Hb)). Qed.
+Lemma l1l2_alias_R (lam sigma : R) (g : option (list (list R))) (h : heap R) (x : ref) :
+  NoDup x -> below (next h) x -> get (call_l1l2 lam sigma g x x h) x = pure_l1l2 lam sigma g (get h x).
+Proof. intros Hn Hb; exact (proj1 (aliased_gen (OLeaf (LL1L2 lam sigma g)) h x I Hn Hb)). Qed.
+Lemma cc_alias_R (sigma inv_sigma : sval R) (prox : op R) (h : heap R) (x : ref) :
+  wfop (length x) prox -> NoDup x -> below (next h) x ->
+  get (run_ip (o_convex_conj sigma inv_sigma prox) x x h) x
+  = lin 1%R 1%R (scal (- 1)%R (mult_val sigma (pure prox (mult_val inv_sigma (get h x))))) (scal 1%R (get h x)).
+Proof.
+  intros Hw Hn Hb.
+  exact (proj1 (aliased_gen (o_convex_conj sigma inv_sigma prox) h x (conj I (conj (conj I Hw) I)) Hn Hb)).
+Qed.
+Lemma hyps_sat_R :
+  let e : op R := o_convex_conj (Sc 2%R) (Sc (/ 2)%R) (OLeaf (LL1 1%R (Sc 1%R) (Some [[1%R; 2%R]]))) in
+  let h : heap R := mkH (fun _ => [0%R; 0%R]) 1 in
+  wfop (length [0%nat]) e /\ NoDup [0%nat] /\ below (next h) [0%nat] /\ diag_ok e (get h [0%nat]).
+Proof. cbn. repeat split; auto. constructor; [intros []|constructor]. repeat constructor. Qed.
+Lemma diag_sat_R :
+  let e : op R := ODiag 1 (OLeaf (LL1 1%R (Sc 1%R) None)) (OLeaf (LBox (BSc 0%R) BNone)) in
+  let v : list (list R) := [[1%R; 2%R]; [3%R]] in
+  wfop 2 e /\ diag_ok e v.
+Proof. cbn. repeat split; auto. Qed.
